@@ -111,6 +111,17 @@ std::string payload(std::string const &tok) // "s:chars" or "x:hex"
   return tok.substr(2);
 }
 
+std::string hex_payload(std::string const &s);
+
+// a string result: `s:<text>` when it consists of printable non-blank ASCII, `x:<hex>` otherwise
+std::string out_str(std::string const &s)
+{
+  for (unsigned char c : s)
+    if (c < 0x21 || c > 0x7e)
+      return hex_payload(s);
+  return "s:" + s;
+}
+
 std::string hex_payload(std::string const &s)
 {
   static char const digits[] = "0123456789abcdef";
@@ -461,6 +472,19 @@ std::string handle1(std::vector<std::string> const &t)
     if (t[1] == "ulong") return run(fcppt::tag<unsigned long>{});
     if (t[1] == "long") return run(fcppt::tag<long>{});
     if (t[1] == "string") return run(fcppt::tag<std::string>{});
+    if (t[1] == "char" || t[1] == "uchar" || t[1] == "schar")
+    {
+      auto run_char = [&s]<typename T>(fcppt::tag<T>) {
+        auto show = [](fcppt::optional::object<T> const &o) { return o.has_value() ? "some " + std::to_string(static_cast<int>(o.get_unsafe())) : std::string{"none"}; };
+        std::string const r1 = show(fcppt::extract_from_string<T>(s));
+        hostile_locale_guard const guard{};
+        std::string const r2 = show(fcppt::extract_from_string_locale<T>(s, std::locale::classic()));
+        return r1 == r2 ? r1 : "locales-disagree " + r1 + " / " + r2;
+      };
+      if (t[1] == "char") return run_char(fcppt::tag<char>{});
+      if (t[1] == "uchar") return run_char(fcppt::tag<unsigned char>{});
+      return run_char(fcppt::tag<signed char>{});
+    }
     return "bad-op";
   }
   return handle(t); // scalar tables of C06
